@@ -63,7 +63,7 @@ Proof.
   induction l as [|[k pr] t IH]; cbn [sp_find].
   - destruct (Z.eqb tot 0); reflexivity.
   - destruct (Z.ltb 0 pr); cbn [andb]; [|exact IH].
-    destruct (Z.eqb (size k) 0); cbn [negb]; [exact IH|reflexivity].
+    rewrite ?(Z.eqb_sym 0 (size k)). destruct (Z.eqb (size k) 0); cbn [negb]; [exact IH|reflexivity].
 Qed.
 
 Lemma gen_sp_from3_spec : forall tot size l, gen_SP_run_from_3 tot l size = sp_found tot (sp_find size l).
@@ -72,7 +72,7 @@ Proof.
   induction l as [|[k pr] t IH]; cbn [sp_find].
   - destruct (Z.eqb tot 0); reflexivity.
   - destruct (Z.ltb 0 pr); cbn [andb]; [|exact IH].
-    destruct (Z.eqb (size k) 0); cbn [negb]; [exact IH|reflexivity].
+    rewrite ?(Z.eqb_sym 0 (size k)). destruct (Z.eqb (size k) 0); cbn [negb]; [exact IH|reflexivity].
 Qed.
 
 Lemma gen_sp_from2_spec : forall tot size l,
@@ -83,7 +83,7 @@ Proof.
   induction l as [|[k pr] t IH]; cbn [sp_find].
   - reflexivity.
   - destruct (Z.ltb 0 pr); cbn [andb]; [|exact IH].
-    destruct (Z.eqb (size k) 0); cbn [negb]; [exact IH|reflexivity].
+    rewrite ?(Z.eqb_sym 0 (size k)). destruct (Z.eqb (size k) 0); cbn [negb]; [exact IH|reflexivity].
 Qed.
 
 (* ---- the automaton's scan, by induction over the table -------------------------------------------------------------- *)
